@@ -242,6 +242,10 @@ def load_known_findings():
 
 def write_replay(ctx, name, content):
     path = os.path.join(VERIF, "replays", "%s-%s-%d.txt" % (ctx.prop, name, int(time.time())))
+    n = 1
+    while os.path.exists(path) or os.path.exists(path.replace(".txt", ".prog")):
+        n += 1
+        path = os.path.join(VERIF, "replays", "%s-%s-%d-%d.txt" % (ctx.prop, name, int(time.time()), n))
     with open(path, "w", encoding="utf-8") as f:
         f.write(content)
     return path
